@@ -1,6 +1,7 @@
 package main
 
 import (
+	"go/token"
 	"strconv"
 	"strings"
 
@@ -91,6 +92,25 @@ func valueEdges(c *Ctx, v ssa.Value, cond DNF) []ValEdge {
 		case *ssa.MakeInterface:
 			rec(rc, x.X, cond, depth+1)
 			return
+		case *ssa.UnOp:
+			// a load of a local variable with several assignments (a named result, an accumulator set on some paths):
+			// one edge per reaching definition, with the condition under which it is the one that reaches
+			if al, isAl := x.X.(*ssa.Alloc); isAl && x.Op == token.MUL && !rc.condBusy {
+				if defs, ok := rc.cellDefs(al, x); ok {
+					for _, d := range defs {
+						full := safeAndDNF(cond, d.Cond)
+						if full.isFalse() {
+							continue
+						}
+						if d.Store == nil {
+							out = append(out, ValEdge{zeroConst(deref(al.Type())), rc, full})
+							continue
+						}
+						rec(rc, d.Store.Val, full, depth+1)
+					}
+					return
+				}
+			}
 		}
 		out = append(out, ValEdge{rv, rc, cond})
 	}
